@@ -672,6 +672,10 @@ void RobustPath::apply_repetition(Array<RobustPath *> &result) {
     return;
 }
 
+// Construction happens in the untransformed frame of the path: the accumulated
+// transformation is only applied when positions are evaluated.
+static const double construction_trafo[6] = {1, 0, 0, 0, 1, 0};
+
 void RobustPath::fill_widths_and_offsets(const Interpolation *width_,
                                          const Interpolation *offset_) {
     if (width_ == NULL) {
@@ -750,7 +754,7 @@ void RobustPath::cubic_smooth(const Vec2 point2, const Vec2 point3, const Interp
     sub.p0 = end_point;
     sub.p1 = end_point;
     if (subpath_array.count > 0)
-        sub.p1 += subpath_array[subpath_array.count - 1].gradient(1, trafo) / 3;
+        sub.p1 += subpath_array[subpath_array.count - 1].gradient(1, construction_trafo) / 3;
     sub.p2 = point2;
     sub.p3 = point3;
     if (relative) {
@@ -783,7 +787,7 @@ void RobustPath::quadratic_smooth(const Vec2 point2, const Interpolation *width_
     sub.p0 = end_point;
     sub.p1 = end_point;
     if (subpath_array.count > 0)
-        sub.p1 += subpath_array[subpath_array.count - 1].gradient(1, trafo) / 2;
+        sub.p1 += subpath_array[subpath_array.count - 1].gradient(1, construction_trafo) / 2;
     sub.p2 = point2;
     if (relative) sub.p2 += end_point;
     end_point = sub.p2;
@@ -855,7 +859,7 @@ void RobustPath::turn(double radius, double angle, const Interpolation *width_,
                       const Interpolation *offset_) {
     Vec2 direction = Vec2{1, 0};
     if (subpath_array.count > 0)
-        direction = subpath_array[subpath_array.count - 1].gradient(1, trafo);
+        direction = subpath_array[subpath_array.count - 1].gradient(1, construction_trafo);
     const double initial_angle = direction.angle() + (angle < 0 ? 0.5 * M_PI : -0.5 * M_PI);
     arc(radius, radius, initial_angle, initial_angle + angle, 0, width_, offset_);
 }
@@ -874,7 +878,7 @@ void RobustPath::parametric(ParametricVec2 curve_function, void *func_data,
     }
     sub.func_data = func_data;
     if (relative) sub.reference = end_point;
-    end_point = sub.eval(1, trafo);
+    end_point = sub.eval(1, construction_trafo);
     subpath_array.append(sub);
     fill_widths_and_offsets(width_, offset_);
 }
